@@ -992,6 +992,19 @@ func invalidReads(r *Replica) []badRead {
 			}
 		}
 		walk(r.doc, "", true, 0)
+		// the root has no parent: asking for it gives nothing, or at least nothing that panics when used
+		func() {
+			defer func() {
+				if p := recover(); p != nil {
+					bad = append(bad, badRead{"panics:Document.GetParentDocument", fmt.Sprintf("the handle returned by GetParentDocument() of the root panicked when used: %v", p)})
+				}
+			}()
+			if pd := r.doc.GetParentDocument(); pd != nil {
+				pd.GetTypeOfJSON()
+				pd.GetValue()
+				pd.GetFromObject("a")
+			}
+		}()
 	}
 	return bad
 }
